@@ -131,6 +131,7 @@ class FakeWriter:
         self.hub = hub
         self.sent: t.List[bytes] = []
         self.closed = False
+        self._closed_fut: t.Optional[asyncio.Future] = None
 
     def write(self, data: t.Any) -> None:
         b = bytes(data)
@@ -146,12 +147,20 @@ class FakeWriter:
 
     def close(self) -> None:
         self.closed = True
+        if self._closed_fut is not None and not self._closed_fut.done():
+            self._closed_fut.set_result(None)
         c = getattr(self.conn, "closed_by_client", None)
         if c:
             c()
 
     async def wait_closed(self) -> None:
-        return None
+        # asyncio semantics: resolves once the transport is closed, which only close() (or an error) brings about - a FIN from
+        # the peer leaves a plain TCP transport half-open. Waiting without having called close() therefore never returns.
+        if self.closed:
+            return None
+        if self._closed_fut is None:
+            self._closed_fut = asyncio.get_running_loop().create_future()
+        await self._closed_fut
 
     def is_closing(self) -> bool:
         return self.closed
